@@ -26,6 +26,13 @@ pub fn version_value(n: u32) -> ArchetypeVersion {
     <One as Arch>::x_version(&donor)
 }
 
+/// Dense index carried by a direct handle (there is no public accessor; Debug prints it).
+pub fn direct_index_of(d: &EntityDirectAny) -> usize {
+    let s = format!("{:?}", d);
+    let k = s.find("dense_index: ").expect("Debug format of EntityDirectAny") + 13;
+    s[k..].chars().take_while(|c| c.is_ascii_digit()).collect::<String>().parse().unwrap()
+}
+
 pub fn arch_of_id(id: u8) -> Option<usize> {
     (0..NARCH).find(|a| arch_id(*a) == id)
 }
